@@ -86,6 +86,18 @@ def parse_rq(rq):
     return d
 
 
+def poly_from_roots(roots, lead=1):
+    cs = [Fraction(lead)]
+    for r in roots:
+        r = Fraction(r)
+        new = [Fraction(0)] * (len(cs) + 1)
+        for i, c in enumerate(cs):
+            new[i] -= c * r
+            new[i + 1] += c
+        cs = new
+    return cs
+
+
 def poly_exact_integral(cs, a, b):
     a, b = Fraction(a), Fraction(b)
     return sum(Fraction(c) / (i + 1) * (b ** (i + 1) - a ** (i + 1)) for i, c in enumerate(cs))
@@ -238,6 +250,27 @@ def generate(tier, seed, ctx):
         if rng.random() < 0.05:
             eps = 0.0
         add(rq_fam(1 if depth <= 6 else 0, kind, w, s, k, a, b, eps, depth), "arb/" + kind)
+    # 6. deterministic: integrands that vanish EXACTLY (in double) at both limits and/or the midpoint while the
+    #    integral is not zero: polynomials of degree 3..5 from dyadic roots placed at a, (a+b)/2, b -----------
+    def dz(cs, x):
+        r = 0.0
+        for c in reversed(cs):
+            r = c + x * r
+        return r == 0.0
+    zcases = 0
+    for (a, b) in ((-1.0, 1.0), (0.0, 1.0), (1.0, 3.0), (-2.0, 2.0), (0.5, 2.5), (-3.0, -1.0)):
+        m = (a + b) / 2
+        for placed in ((a, m, b), (a, m), (m, b), (a, b)):
+            for extra in ([], [a - 0.5], [b + 1.0], [(a + m) / 2], [a - 0.5, b + 1.0], [m, b + 0.5], [(a + m) / 2, b + 1.0]):
+                roots = list(placed) + extra
+                if not (3 <= len(roots) <= 5):
+                    continue
+                cs = [float(c) for c in poly_from_roots(roots)]
+                if not all(dz(cs, x) for x in placed):
+                    continue
+                for (eps, depth) in ((2.0 ** -30, 0), (2.0 ** -10, 3), (1e-12, 8), (0.5, 12)):
+                    add(rq_int(1, fn_poly(cs), a, b, eps, depth), "zeros/%d/deg%d" % (len(placed), len(roots)))
+                    zcases += 1
     # negative depth / zero epsilon on the model-compared side too
     for _ in range(30 * N):
         cs = [float(rng.randint(-4, 4)) for _ in range(rng.randint(1, 8))]
